@@ -116,6 +116,34 @@ def run_in_sentinel(ctx, w, cfg):
     return rc, out, before_in, after_in, probs
 
 
+def dangling_link_cases(ctx):
+    """a name inside the tree that is a symbolic link to a missing file outside: creating 'that file' must replace the
+    link, not create its target"""
+    probs = []
+    for th in (1, 2):
+        top = ws.fresh_dir("c19l")
+        outer = os.path.join(top, "outer")
+        wsd = os.path.join(outer, "ws")
+        os.makedirs(os.path.join(wsd, "patches"))
+        os.makedirs(os.path.join(wsd, "sub"))
+        os.symlink("../outside.txt", os.path.join(wsd, "link"))
+        os.symlink("../../outside2.txt", os.path.join(wsd, "sub", "link2"))
+        open(os.path.join(wsd, "patches", "p.patch"), "wb").write(
+            b"--- /dev/null\n+++ b/link\n@@ -0,0 +1 @@\n+hello\n--- /dev/null\n+++ b/sub/link2\n@@ -0,0 +1 @@\n+hello\n")
+        open(os.path.join(wsd, "series"), "wb").write(b"p.patch\n")
+        before = outer_snapshot(outer, wsd)
+        rc, out = ws.run_push(ctx.binary, wsd, ["-a", "-q", "--threads", str(th)], timeout=30)
+        after = outer_snapshot(outer, wsd)
+        if after != before:
+            probs.append("threads=%d: written through a dangling symbolic link: %s" % (th, sorted(set(after) ^ set(before))[:4]))
+        if rc not in (0, 1):
+            probs.append("threads=%d: exit status %s" % (th, rc))
+        shutil.rmtree(top, ignore_errors=True)
+    ctx.coverage["dangling_link_runs"] = 2
+    if probs:
+        ctx.violation({"kind": "escapes-the-tree", "problems": probs})
+
+
 def parser_cases(rng, n):
     cases = []
     for _ in range(n):
@@ -191,6 +219,7 @@ def run(ctx):
             if bad <= 2:
                 ctx.violation({"kind": "escapes-the-tree", "problems": probs, "workspace": l3common.ws_json(w), "cfg": l3common.cfg_json(cfg),
                                "args": l3gen.cfg_args(cfg), "output": out[-300:].decode("latin-1")})
+    dangling_link_cases(ctx)
     l3common.compare(ctx, cases, "pushes with escaping names", real_results=reals)
     # the absolute-path sentinel must not have appeared
     if os.path.exists(os.path.join(ws.SCRATCH, "c19-abs")):
